@@ -1,6 +1,6 @@
 """C04 -- spherematch returns exactly the pairs closer than the match length."""
 
-from .spherelib import check_cell_agree, check_rot_agree, check_dedup_wrap, check_spherematch, check_seam
+from .spherelib import check_cell_agree, check_rot_agree, check_dedup_wrap, check_spherematch, check_seam, check_chunk_grid, check_append_only
 from .c18 import check_gcirc
 
 META = {
@@ -18,7 +18,7 @@ META = {
         'and counter updates, visit pairs in distance order and count accepted pairs only; C04.DEDUP-WRAP - a point is entered at most '
         'once per cell, out-of-range cell numbers wrap around the RA circle and the margin loops of getbounds can step to -1 / nRa so '
         'that they do. C04.SEAM - at least one of the two cooperating guards that keep the RA 0/360 seam away from the cells is present; C04.GCIRC - the separation is the haversine great-circle formula (shared with C18). NOT decided: completeness of the spatial hash near poles and chunk edges, maximality of the greedy selection.'),
-    'floors': {'C04.CELL-AGREE': 2, 'C04.ROT-AGREE': 2, 'C04.MARGIN': 2, 'C04.ALIGN': 2, 'C04.SORTED': 4, 'C04.MAXMATCH-SIB': 4, 'C04.DEDUP-WRAP': 6, 'C04.SEAM': 1, 'C04.GCIRC': 2},
+    'floors': {'C04.GRID': 4, 'C04.APPEND-ONLY': 1, 'C04.CELL-AGREE': 2, 'C04.ROT-AGREE': 2, 'C04.MARGIN': 2, 'C04.ALIGN': 2, 'C04.SORTED': 4, 'C04.MAXMATCH-SIB': 4, 'C04.DEDUP-WRAP': 6, 'C04.SEAM': 1, 'C04.GCIRC': 2},
 }
 
 
@@ -42,3 +42,5 @@ def run(ctx):
             ctx.violations.append(v)
     ctx.functions.update(sub.functions)
     check_spherematch(ctx, ctx.repo)
+    check_chunk_grid(ctx, ctx.repo, 'C04.GRID')
+    check_append_only(ctx, ctx.repo, 'C04.APPEND-ONLY')
